@@ -267,6 +267,11 @@ func (x *Enc) elemAddr(elemT types.Type, base, idx Term) Term {
 		x.sc.declFun(i1, []string{"Int"}, "Int")
 		x.sc.declFun(i2, []string{"Int"}, "Int")
 		x.sc.assert(fmt.Sprintf("(forall ((b Int) (i Int)) (! (and (= (%s (%s b i)) b) (= (%s (%s b i)) i) (> (%s b i) 0) (=> (> b 0) (>= (%s b i) b))) :pattern ((%s b i))))", i1, n, i2, n, n, n, n))
+		// an element's address is neither the address of an allocation of its own (tag 0) nor of an embedded field
+		// (positive tags) nor of an element of another type: each addressing function has its own negative tag
+		x.sc.declFun("embtag", []string{"Int"}, "Int")
+		x.nElem++
+		x.sc.assert(fmt.Sprintf("(forall ((b Int) (i Int)) (! (= (embtag (%s b i)) (- %d)) :pattern ((%s b i))))", n, x.nElem, n))
 	}
 	return app(n, base, idx)
 }
